@@ -790,7 +790,7 @@ func payloadsFor(t int, g *rand.Rand, reps int) []payload {
 func generateStreams(g *rand.Rand, thorough bool, emit func(*stream)) {
 	reps := 1
 	if thorough {
-		reps = 12
+		reps = 8
 	}
 	n := 0
 	out := func(s *stream) {
@@ -915,7 +915,7 @@ func generateStreams(g *rand.Rand, thorough bool, emit func(*stream)) {
 	// (E) several frames per connection.
 	nMulti := 400
 	if thorough {
-		nMulti = 20000
+		nMulti = 8000
 	}
 	keepOpen := []int{1, 3, 5, 7, 9, 11, 13, 15, 23, 25, 27}
 	for i := 0; i < nMulti; i++ {
@@ -975,7 +975,7 @@ func generateStreams(g *rand.Rand, thorough bool, emit func(*stream)) {
 	// (F) seeded mutations of valid single requests, honest length: gets past framing into the decoders and handlers.
 	nMut := 1500
 	if thorough {
-		nMut = 120000
+		nMut = 60000
 	}
 	for i := 0; i < nMut; i++ {
 		t := requestTypes[g.Intn(len(requestTypes))]
@@ -1001,7 +1001,7 @@ func generateStreams(g *rand.Rand, thorough bool, emit func(*stream)) {
 	// (G) raw random streams after the header.
 	nRand := 300
 	if thorough {
-		nRand = 20000
+		nRand = 8000
 	}
 	for i := 0; i < nRand; i++ {
 		s := newStream("random", hdr)
